@@ -15,7 +15,9 @@ Patterns == { << <<"M", 40>>, <<"M", 60>> >>,
               << <<"M", 200>>, <<"S", 25>>, <<"M", 350>>, <<"S", 40>>, <<"M", 200>> >>,
               << <<"J", 60>>, <<"M", 150>>, <<"S", 30>>, <<"M", 150>> >>,          \* junction at the west end
               << <<"J", 40>>, <<"M", 200>>, <<"J", 40>> >>,                         \* junctions at both ends
-              << <<"D", 25>> >>, << <<"D", 40>> >> }                                \* diamond crossing, crossing link 2.5 / 4 km
+              << <<"D", 25>> >>, << <<"D", 40>> >>,
+              << <<"M", 200>>, <<"S", 30, 8, 20>>, <<"M", 200>> >>,                 \* siding whose PRIMARY track is the slow one
+              << <<"M", 200>>, <<"M", 3, 65>>, <<"M", 14, 45>>, <<"M", 200>> >> }   \* links 5 m longer than the 20- / 80-car trains                                \* diamond crossing, crossing link 2.5 / 4 km
 HasJ == \E i \in 1..Len(stages) : stages[i][1] \in {"J", "D"}
 IsD == stages[1][1] = "D"
 Speeds == {8, 20}               \* per-train maximum speed: slow leaders, fast followers
